@@ -81,6 +81,10 @@ func (r *Registry) Add(soyfile *ast.SoyFileNode) error {
 		}
 		tn.Body.Nodes = tn.Body.Nodes[len(headerParams):]
 
+		if other, ok := r.fileByTemplateName[tn.Name]; ok {
+			return fmt.Errorf("template %q is defined more than once (in %s and in %s)",
+				tn.Name, other, soyfile.Name)
+		}
 		r.Templates = append(r.Templates, Template{sdn, tn, ns})
 		r.sourceByTemplateName[tn.Name] = soyfile.Text
 		r.fileByTemplateName[tn.Name] = soyfile.Name
